@@ -125,10 +125,40 @@ def c16(tier, seed):
     return rc
 
 
+
+DOC_TYPES = {"u64": 8, "i64": 8, "u32": 4, "i32": 4, "u16": 2, "i16": 2, "u8": 1, "i8": 1}
+
+
+def protocol_md_table():
+    """The field table as docs/PROTOCOL.md states it today: `**Name**: (type[, type])` entries of the shared-memory
+    section, packed in order. Returns [(name, offset, width)], the status value list and the magic bytes."""
+    txt = open("/repo/docs/PROTOCOL.md").read()
+    sec = txt.split("# ClockBound Unix Datagram Socket Protocol")[0]
+    sec = sec[sec.index("## Description"):]
+    table, off = [], 0
+    for m in re.finditer(r"^\*\*([^*]+)\*\*: \(([^)]*)\)", sec, re.M):
+        for j, t in enumerate(x.strip() for x in m.group(2).split(",")):
+            if t not in DOC_TYPES:
+                raise ToolError(f"docs/PROTOCOL.md: unknown type {t} for {m.group(1)}")
+            table.append((m.group(1).strip() + (f"#{j}" if "," in m.group(2) else ""), off, DOC_TYPES[t]))
+            off += DOC_TYPES[t]
+    statuses = {int(a): b for a, b in re.findall(r"^(\d+) - (\w+):", sec, re.M)}
+    magic = [int(x, 16) for x in re.findall(r"0x([0-9A-Fa-f]{2})", sec.split("**Segment Size**")[0])]
+    return table, statuses, magic
+
+
+# Layout.tla's table in the document's terms (the magic number is one u64 in the document, two u32 stores in the code)
+LAYOUT_AS_DOC = [("Magic Number", 0, 8), ("Segment Size", 8, 4), ("Version", 12, 2), ("Generation", 14, 2),
+                 ("As-Of Timestamp#0", 16, 8), ("As-Of Timestamp#1", 24, 8), ("Void-After Timestamp#0", 32, 8), ("Void-After Timestamp#1", 40, 8),
+                 ("Bound", 48, 8), ("Max Drift", 56, 4), ("Reserved", 60, 4), ("Clock Status", 64, 4)]
+LAYOUT_STATUSES = {0: "Unknown", 1: "Synchronized", 2: "FreeRunning"}
+LAYOUT_MAGIC = [0x41, 0x4D, 0x5A, 0x4E, 0x43, 0x42, 0x02, 0x00]
+
+
 @register("C17")
 def c17(tier, seed):
     rep = Report("C17", tier, seed, "exploration")
-    rep.assumptions = ["Layout.tla is a faithful transcription of docs/PROTOCOL.md (13 fields, reviewed by eye; adjacency checked by TLC)",
+    rep.assumptions = ["Layout.tla is a transcription of docs/PROTOCOL.md (13 fields; adjacency checked by TLC; the document is re-parsed on every run and compared with the table)",
                        "ABI: the C driver is compiled against clock-bound-ffi/include/clockbound.h and linked with libclockbound.a built from the working tree; struct layout drift shows up as differing results",
                        "native endianness = little endian on the build host"]
     rep.rule = "segment images with every field at extremes and random values, written by the real ShmWriter and by the real daemon Updater path, decoded by TLC with the PROTOCOL.md table; plus the C05/C06/C14 vector set and the C16 file set through the C and the Rust client; distinct by content"
@@ -146,6 +176,13 @@ def c17(tier, seed):
     for i in bad_ids(r.out, "BADIMG")[:5]:
         v = line_by_id(img, i)
         rep.violation("layout", f"bytes written by {v.get('via')} do not decode to the published values with the offsets of docs/PROTOCOL.md", {"kind": "layout", "image": v})
+    # the description itself: docs/PROTOCOL.md must still say what Layout.tla (and, by the decoding above, the code) says
+    doc_table, doc_status, doc_magic = protocol_md_table()
+    rep.evaluations += 1
+    rep.notes.append(f"docs/PROTOCOL.md parsed: {len(doc_table)} fields ending at byte {doc_table[-1][1] + doc_table[-1][2] if doc_table else 0}, statuses {doc_status}")
+    if (doc_table, doc_status, doc_magic) != (LAYOUT_AS_DOC, LAYOUT_STATUSES, LAYOUT_MAGIC) and not rep.violations:
+        diff = [(a, b) for a, b in zip(doc_table + [None] * 20, LAYOUT_AS_DOC + [None] * 20) if a != b][:3]
+        rep.violation("description-differs", f"docs/PROTOCOL.md no longer describes the layout the code writes (the images decode with the previous table): first differences (document, code) {diff}; statuses {doc_status}; magic {doc_magic}", {"kind": "doc", "document": doc_table, "code": LAYOUT_AS_DOC, "statuses": doc_status, "magic": doc_magic})
     m = re.search(r'<< "SAMPLE",\s*(\d+),\s*(\[.*?\]) >>', r.out, re.S)
     if m:
         rep.sample({"image": int(m.group(1)), "decoded": " ".join(m.group(2).split())})
